@@ -13,6 +13,7 @@ import SemantivaModel.Driver.C14
 import SemantivaModel.Driver.C15
 import SemantivaModel.Driver.C16
 import SemantivaModel.Driver.C17
+import SemantivaModel.Driver.C18
 /-!
 `modeldriver`: one JSON object per line in, one per line out.
 `{"m": "<model>.<op>", "id": <any>, ...}` → `{"id": <same>, "ok": ...}` or `{"id":…, "err": "..."}`.
@@ -55,6 +56,8 @@ def dispatch (st : DState) (j : Json) : Except String (DState × Json) := do
     pure (st, ← C15.handle m j)
   else if m.startsWith "c16." then
     pure (st, ← C16.handle m j)
+  else if m.startsWith "c18." then
+    pure (st, ← C18.handle m j)
   else if m.startsWith "c17." then
     pure (st, ← C17.handle m j)
   else if m.startsWith "c09." then
